@@ -76,7 +76,7 @@ def sendInner (s : St) (x : Xfer) : St × Out :=
 def drainBuf (s : St) : List Xfer → St × List Out
   | [] => ({ s with buf := [] }, [])
   | x :: rest =>
-    if prepare_buffered.cond_while_0 s.riw then
+    if prepare_buffered.let_window_open_0 s.riw then
       let (s1, o) := sendInner s x
       let (s2, os) := drainBuf s1 rest
       (s2, o :: os)
